@@ -253,3 +253,13 @@ Theorem C02_root_binds_leaves : forall (H256 : bytes -> bytes), (forall x, lengt
   l = l' \/ (exists x y : bytes, x <> y /\ H256 x = H256 y).
 Proof. exact tree_root_binds. Qed.
 Print Assumptions C02_root_binds_leaves.
+
+(* ... and the same for the bottom-up loop the code actually runs (hasher.merkle_root) *)
+Theorem C02_code_root_binds_leaves : forall (H256 : bytes -> bytes), (forall x, length (H256 x) = 32%nat) ->
+  forall (k : nat) (l l' : list bytes),
+  length l = (2 ^ k)%nat -> length l' = (2 ^ k)%nat ->
+  Forall (fun x => length x = 32%nat) l -> Forall (fun x => length x = 32%nat) l' ->
+  merkle_root H256 l = merkle_root H256 l' ->
+  l = l' \/ (exists x y : bytes, x <> y /\ H256 x = H256 y).
+Proof. exact merkle_root_binds. Qed.
+Print Assumptions C02_code_root_binds_leaves.
